@@ -95,7 +95,11 @@ def run_sign(sub, input_bytes: bytes, d: str, **kw):
     rec = _record_file(d)
     if os.path.exists(rec):
         os.unlink(rec)
-    common.make_stale(out)
+    in_place = bool(kw.get("in_place"))          # --output-envelope names the input file itself
+    if in_place:
+        out = inp
+    else:
+        common.make_stale(out)
     with open(inp, "wb") as fh:
         fh.write(input_bytes)
     os.environ["VERIF_KMS_RECORD"] = rec
@@ -112,13 +116,13 @@ def run_sign(sub, input_bytes: bytes, d: str, **kw):
         args.update(configuration=cfgp)
     try:
         cmd_sign.main(**args)
-        if not common.was_written(out):
+        if not in_place and not common.was_written(out):
             raise FileNotFoundError("no output envelope written")
         with open(out, "rb") as fh:
             res = {"ok": fh.read()}
     except BaseException as e:  # noqa
         name = type(e).__name__
-        res = {"err": "ValueError" if isinstance(e, ValueError) else name, "wrote_output": common.was_written(out)}
+        res = {"err": "ValueError" if isinstance(e, ValueError) else name, "wrote_output": (open(out, "rb").read() != input_bytes) if in_place else common.was_written(out)}
     records = []
     if os.path.exists(rec):
         with open(rec) as fh:
